@@ -1,8 +1,37 @@
 (* C01 Lattice merge is associative, commutative and idempotent.
-   This file contains only the property theorems; each is closed by an exact/apply of a
-   lemma proved elsewhere and followed by Print Assumptions. *)
-From HV Require Import Lattice.Univ Lattice.PScalar.
+   Only property theorems live here; each is closed by an exact of a lemma proved in
+   Lattice/P*.v and followed by Print Assumptions. *)
+From HV Require Import Lattice.Univ Lattice.PUniv.
 
-Theorem C01_max : forall top, C01_stmt (max_ops top).
-Proof. intro top. exact (laws_C01 (max_laws top)). Qed.
-Print Assumptions C01_max.
+(* every nesting of the shipped constructors (every type code), every well-formed triple;
+   key_total is the property's own side condition on DomPair *)
+Theorem C01_laws : forall t, key_total t = true ->
+  forall a b c : val t, W (ops t) a -> W (ops t) b -> W (ops t) c ->
+    E (ops t) (m (ops t) a a) a /\
+    E (ops t) (m (ops t) a b) (m (ops t) b a) /\
+    E (ops t) (m (ops t) (m (ops t) a b) c) (m (ops t) a (m (ops t) b c)) /\
+    W (ops t) (m (ops t) a b).
+Proof. intros t K. exact (laws_C01 (laws t K)). Qed.
+Print Assumptions C01_laws.
+
+(* merge respects the lattice's own equality (needed for "same lattice value") *)
+Theorem C01_congruence : forall t, key_total t = true ->
+  forall a a' b b' : val t, W (ops t) a -> W (ops t) a' -> W (ops t) b -> W (ops t) b' ->
+    E (ops t) a a' -> E (ops t) b b' -> E (ops t) (m (ops t) a b) (m (ops t) a' b').
+Proof. intros t K. exact (m_cong (laws t K)). Qed.
+Print Assumptions C01_congruence.
+
+(* the side condition is needed: DomPair over a partially ordered key is not a lattice *)
+Theorem C01_dom_needs_total_refuted :
+  exists t (a b c : val t), key_total t = false /\ W (ops t) a /\ W (ops t) b /\ W (ops t) c /\
+    ~ E (ops t) (m (ops t) (m (ops t) a b) c) (m (ops t) a (m (ops t) b c)).
+Proof. exact dom_needs_total_refuted. Qed.
+Print Assumptions C01_dom_needs_total_refuted.
+
+(* non-vacuity: a nested code satisfying the hypotheses with non-trivial well-formed values *)
+Example C01_nonvacuous :
+  let t := TMap (TPair (TBot TSet) (TDom (TMax SU8) (TVec (TTop (TMin SU8))))) in
+  key_total t = true /\
+  W (ops t) [(1, (Some [2; 3], (7, [Some 4; None])))]%N /\
+  W (ops t) [(1, (None, (9, []))); (5, (Some [], (0, [None])))]%N.
+Proof. repeat split. Qed.
